@@ -87,6 +87,16 @@ func c17Conservation(c *Ctx, add *ssa.Function) {
 	in, lk, del, sa, ss := ins[0], lookups[0], dels[0], adds[0], seqStores[0]
 	ok := true
 	why := ""
+	// the buffer is the same map from construction on: replacing it drops whatever is still waiting
+	eachInstrRegion(add, func(i ssa.Instruction) {
+		if st, isSt := i.(*ssa.Store); isSt {
+			if fa, isFA := st.Addr.(*ssa.FieldAddr); isFA && isNamedType(fa.X.Type(), "lib/plot", "labeledSeries") && fieldName(fa.X.Type(), fa.Field) == "buf" {
+				if _, fresh := fa.X.(*ssa.Alloc); !fresh {
+					ok, why = false, "the reorder buffer is replaced while points may still be waiting in it ("+c.at(st)+"): they are never plotted and the series stalls at the first missing sequence number"
+				}
+			}
+		}
+	})
 	if in.Parent() != add {
 		ok, why = false, "the point is not buffered by add itself"
 	}
